@@ -284,8 +284,8 @@ static void behave(int i, enum aws_task_status status) {
         case B_FUT: {
             int j = b->other;
             if (ref[j].pending) break; /* documented precondition: a task is handed over only while it is not pending */
-            if (cx.mode == M_CLEANUP && cx.cancel_depth == 0) {
-                /* so that clean_up terminates: inside clean_up every task schedules at most once */
+            if (cx.mode == M_CLEANUP) {
+                /* so that clean_up terminates: inside clean_up every task function schedules at most once */
                 if (cx.cleanup_fired[i]) break;
                 cx.cleanup_fired[i] = 1;
                 ev[EV_CLEANUP_RE_SCHED]++;
@@ -768,10 +768,11 @@ int main(int argc, char **argv) {
         "Rt0_Rt0_C0",   /* self-reschedule into the heap at time 0 */
     };
     if (INJ) {
-        /* timed_list fallback / merge code: plain, and the behaviours that put tasks into / take tasks out of timed_list
-         * re-entrantly */
-        static const char *const inj[] = {"n_n_n", "F1t1_n_n", "Rt1_n_n", "C1_n_n", "F1t0_C2_Rt4", "C1_C2_C0", "Rt2_C0_F0t1", "F1t2_F2t2_F0t2"};
+        /* timed_list fallback / merge code: plain, every single behaviour, and interplay that puts tasks into / takes
+         * tasks out of timed_list re-entrantly */
+        static const char *const inj[] = {"n_n_n", "F1t0_C2_Rt4", "C1_C2_C0", "Rt2_C0_F0t1", "F1t2_F2t2_F0t2"};
         for (size_t i = 0; i < sizeof(inj) / sizeof(inj[0]); ++i) run_cfg(3, inj[i]);
+        for (size_t i = 0; i < sizeof(single) / sizeof(single[0]); ++i) run_cfg(3, single[i]);
     } else if (!v_thorough()) {
         for (size_t i = 0; i < sizeof(single) / sizeof(single[0]); ++i) run_cfg(3, single[i]);
         for (size_t i = 0; i < sizeof(picked) / sizeof(picked[0]); ++i) run_cfg(3, picked[i]);
